@@ -10,38 +10,39 @@ set_option linter.unusedVariables false
 namespace Rooc
 namespace Lin
 open Arith
-variable {α : Type} [Arith α] {β γ : Type}
+variable {α : Type} [Arith α] [BCfg α] {β γ : Type}
 variable {N : String → Prop} {p : α → Bool}
 
 section block
 attribute [local irreducible] CtxOK Ctx.mergeAdd Ctx.mergeSub Ctx.mulBy Ctx.divBy Ctx.addRhs Ctx.addVar
-  Ctx.fromRhs Ctx.fromVar Ctx.new ctxToExp sumExps isAux
-variable (hN : N "") (hp : Closed p)
-include hN hp
+  Ctx.fromRhs Ctx.fromVar Ctx.new ctxToExp sumExps isAux retainedFlagsE
+variable (hN : N "") (hp : Closed p) (hB : BTrack p)
+include hN hp hB
 
+set_option maxHeartbeats 1000000 in
 theorem linExp_block :
-    (∀ (e : Exp α) (req : Req), allLits p e = true → ∀ s, SpAt (Rel N p) s (linExp e req) (CtxOK p)) ∧
-    (∀ (e : Exp α), allLits p e = true → ∀ s, SpAt (Rel N p) s (linBinaryOperand e) (fun x => allLits p x = true)) ∧
+    (∀ (e : Exp α) (req : Req), allLits p e = true → ∀ s, SpAt (Rel N p) (Inv N p) s (linExp e req) (CtxOK p)) ∧
+    (∀ (e : Exp α), allLits p e = true → ∀ s, SpAt (Rel N p) (Inv N p) s (linBinaryOperand e) (fun x => allLits p x = true)) ∧
     (∀ (es : List (Exp α)), allLitsL p es = true →
-      ∀ s, SpAt (Rel N p) s (linBinaryOperands es) (fun xs => allLitsL p xs = true)) ∧
+      ∀ s, SpAt (Rel N p) (Inv N p) s (linBinaryOperands es) (fun xs => allLitsL p xs = true)) ∧
     (∀ (kind : ExtKind) (es : List (Exp α)) (req : Req), allLitsL p es = true →
-      ∀ s, SpAt (Rel N p) s (linExtreme kind es req) (CtxOK p)) ∧
+      ∀ s, SpAt (Rel N p) (Inv N p) s (linExtreme kind es req) (CtxOK p)) ∧
     (∀ (es : List (Exp α)) (fs : List Bool) (req : Req), allLitsL p es = true →
-      ∀ s, SpAt (Rel N p) s (linFlagged es fs req) (fun xs => allLitsL p xs = true)) ∧
+      ∀ s, SpAt (Rel N p) (Inv N p) s (linFlagged es fs req) (fun xs => allLitsL p xs = true)) ∧
     (∀ (es : List (Exp α)) (fs : List Bool) (req : Req), allLitsL p es = true →
-      ∀ s, SpAt (Rel N p) s (linFirstFlagged es fs req) (CtxOK p)) := by
+      ∀ s, SpAt (Rel N p) (Inv N p) s (linFirstFlagged es fs req) (CtxOK p)) := by
   have hR := rel_isPre (α := α) N p
   apply linExp.mutual_induct
-    (motive1 := fun e req => allLits p e = true → ∀ s, SpAt (Rel N p) s (linExp e req) (CtxOK p))
-    (motive2 := fun e => allLits p e = true → ∀ s, SpAt (Rel N p) s (linBinaryOperand e) (fun x => allLits p x = true))
+    (motive1 := fun e req => allLits p e = true → ∀ s, SpAt (Rel N p) (Inv N p) s (linExp e req) (CtxOK p))
+    (motive2 := fun e => allLits p e = true → ∀ s, SpAt (Rel N p) (Inv N p) s (linBinaryOperand e) (fun x => allLits p x = true))
     (motive3 := fun es => allLitsL p es = true →
-      ∀ s, SpAt (Rel N p) s (linBinaryOperands es) (fun xs => allLitsL p xs = true))
+      ∀ s, SpAt (Rel N p) (Inv N p) s (linBinaryOperands es) (fun xs => allLitsL p xs = true))
     (motive4 := fun kind es req => allLitsL p es = true →
-      ∀ s, SpAt (Rel N p) s (linExtreme kind es req) (CtxOK p))
+      ∀ s, SpAt (Rel N p) (Inv N p) s (linExtreme kind es req) (CtxOK p))
     (motive5 := fun es fs req => allLitsL p es = true →
-      ∀ s, SpAt (Rel N p) s (linFlagged es fs req) (fun xs => allLitsL p xs = true))
+      ∀ s, SpAt (Rel N p) (Inv N p) s (linFlagged es fs req) (fun xs => allLitsL p xs = true))
     (motive6 := fun es fs req => allLitsL p es = true →
-      ∀ s, SpAt (Rel N p) s (linFirstFlagged es fs req) (CtxOK p))
+      ∀ s, SpAt (Rel N p) (Inv N p) s (linFirstFlagged es fs req) (CtxOK p))
   case case1 =>
     intro l r req ih1 ih2 hl s
     simp only [allLits, Bool.and_eq_true] at hl
